@@ -318,6 +318,8 @@ def run(m: Model, r: Report, tier: str) -> None:
     r.check(len(to) == 1 and isinstance(to[0].body[-1], ast.Continue), "R6", f"{fn.qualname}#timeout-handler", "TimeoutError handler of the attempt changed", loc=fn.loc)
 
     # the reconnect between two attempts must not fail because the *old* connection is dead
+    from sa.uds_rules import reconnect_unsafe_rule
+    reconnect_unsafe_rule(m, r, "R6")
     ru = m.require_function(f"{CLIENT}.UDSClient.reconnect_unsafe")
     r.check(any(isinstance(n, ast.Call) and ast.unparse(n.func) == "self.transport.reconnect" for n in ast.walk(ru.node)), "R6",
             f"{ru.qualname}#delegates", "reconnect_unsafe must use the transport's reconnect()", loc=ru.loc)
